@@ -30,7 +30,11 @@ CONSTRUCTORS = ["Field(AnyArray(a))", "Field(a)", "from_raw", "makeField", "cast
                 # source arrays that are ndarray SUBCLASS instances (user subclass, memory map)
                 "Field(a:subclass)", "makeField(a:subclass)", "AnyArray(a:subclass)", "makeField(a:memmap)",
                 # zero-dimensional source arrays (scalar domain)
-                "from_raw(0d)", "makeField(0d)", "Field(0d)", "mf_from_raw(0d)"]
+                "from_raw(0d)", "makeField(0d)", "Field(0d)", "mf_from_raw(0d)",
+                # source arrays whose shape differs from the domain's but whose size matches (rejected by the
+                # library today; if a constructor ever accepts them the result must still be unreachable)
+                "makeField(a:extra-axis)", "from_raw(a:extra-axis)", "Field(a:extra-axis)", "mf_from_raw(a:extra-axis)",
+                "makeField(a:flat)", "from_raw(a:flat)", "Field(a:flat)"]
 ROOTS = ["source", "val", "raw", "asnumpy", "val.val"]
 
 DERIV_NP = ["view", "reshape", "ellipsis", "slice", "T", "asarray", "real", "ravel"]
@@ -63,6 +67,21 @@ def _mk(constructor, dtype):
         if constructor.startswith("mf_from_raw"):
             return ift.MultiField.from_raw(ift.MultiDomain.make({"k": sd}), {"k": z}), z
         return ift.Field(sd, z), z
+    if constructor.endswith(":extra-axis)") or constructor.endswith(":flat)"):
+        if constructor.endswith(":flat)"):
+            dom2, a = ift.RGSpace((1, 3)), np.array(base)
+        else:
+            dom2, a = dom, np.array(base.reshape(3, 1))
+        try:
+            if constructor.startswith("makeField"):
+                return ift.makeField(dom2, a), a
+            if constructor.startswith("from_raw"):
+                return ift.Field.from_raw(dom2, a), a
+            if constructor.startswith("mf_from_raw"):
+                return ift.MultiField.from_raw(ift.MultiDomain.make({"k": dom2}), {"k": a}), a
+            return ift.Field(ift.DomainTuple.make(dom2), a), a
+        except (ValueError, TypeError):
+            return None, "rejected"
     if constructor.endswith(":subclass)"):
         a = a.view(_SubArr)
         if constructor.startswith("Field("):
@@ -234,7 +253,7 @@ def run(case):
     import nifty.cl as ift
     f0, a0 = _mk(case["constructor"], case["dtype"])
     if f0 is None:
-        return skip("constructor needs complex input")
+        return skip("constructor rejects a source of this shape" if a0 is not None else "constructor needs complex input")
     if case["root"] == "source" and a0 is None:
         return skip("constructor has no source array")
     histories = shared = raised = 0
